@@ -57,14 +57,26 @@ def make_client(is_async, script, **kw):
     return (AsyncClient if is_async else SyncClient)(script, **kw)
 
 
-def run(is_async, thunk):
-    """thunk() returns a value or a coroutine; returns ('ok', value) | ('raise', exc) - BaseException included."""
+def run(is_async, thunk, at_return=None):
+    """thunk() returns a value or a coroutine; returns ('ok', value) | ('raise', exc) - BaseException included.
+    at_return() is called at the very moment the client call returns or raises - for a coroutine that is INSIDE the
+    event loop, before control goes back to it (so work a callee left scheduled on the loop has not run yet)."""
     try:
         r = thunk()
         if is_async and asyncio.iscoroutine(r):
-            r = loop().run_until_complete(r)
+            async def wrapper(co):
+                try:
+                    return await co
+                finally:
+                    if at_return:
+                        at_return()
+            r = loop().run_until_complete(wrapper(r))
+        elif at_return:
+            at_return()
         return ('ok', r)
     except BaseException as e:  # noqa
+        if at_return and not (is_async):
+            at_return()
         return ('raise', e)
 
 
